@@ -56,6 +56,7 @@ type c14Hist struct {
 	desc    []string
 	nextID  int
 	stall   int64 // largest scheduling stall witnessed so far in this history
+	prevStall, stepStall int64 // stalls witnessed during the previous step and the one before
 	exitAt  int64 // predicted real time (history clock) at which the clock goroutine exits; 0 = not running
 	direct  []string
 	aborted bool
@@ -126,8 +127,10 @@ func (h *c14Hist) snap(what string) {
 		}
 		time.Sleep(300 * time.Microsecond) // goroutine between running=false and its exit, or just spawned
 	}
-	if s := c14TakeStall(); s > h.stall {
-		h.stall = s
+	h.prevStall = h.stepStall
+	h.stepStall = c14TakeStall()
+	if h.stepStall > h.stall {
+		h.stall = h.stepStall
 	}
 	h.events = append(h.events, 4, p, cur, ce, b2i(run), b2i(started), since, b2i(present), h.stall)
 	h.nEvents++
@@ -162,10 +165,13 @@ func (h *c14Hist) input(kind int) string {
 	return h.catIn
 }
 
-func (h *c14Hist) runMatch(m *c14Match, re *regexp2.Regexp, gate <-chan struct{}) {
+func (h *c14Hist) runMatch(m *c14Match, re *regexp2.Regexp, gate *atomic.Int32, n int32) {
 	in := h.input(m.kind)
 	if gate != nil {
-		<-gate
+		// spin barrier: the goroutines must enter makeDeadline as simultaneously as possible
+		gate.Add(1)
+		for gate.Load() < n {
+		}
 	}
 	m.b = h.now()
 	_, err := re.MatchString(in)
@@ -190,30 +196,30 @@ func (h *c14Hist) group(ms []*c14Match) {
 	}
 	h.avoidBoundary(int64(maxD) + int64(20*time.Millisecond))
 	wasStopped := h.exitAt == 0 || h.now() > h.exitAt
-	c14TakeStall()
 	if len(ms) == 1 {
-		h.runMatch(ms[0], h.res[ms[0].d][0], nil)
+		h.runMatch(ms[0], h.res[ms[0].d][0], nil, 0)
 	} else {
-		gate := make(chan struct{})
+		var gate atomic.Int32
 		var wg sync.WaitGroup
 		for g, m := range ms {
 			wg.Add(1)
 			go func(g int, m *c14Match) {
 				defer wg.Done()
-				h.runMatch(m, h.res[m.d][g], gate)
+				h.runMatch(m, h.res[m.d][g], &gate, int32(len(ms)))
 			}(g, m)
 		}
-		time.Sleep(200 * time.Microsecond) // let them all reach the gate
-		close(gate)
 		wg.Wait()
 		h.sawGroup++
 	}
 	if wasStopped && h.nextID > len(ms) {
 		h.sawRestart++
 	}
-	gstall := c14TakeStall()
-	if gstall > h.stall {
-		h.stall = gstall
+	gstall := c14MaxGap.Load() // stall during this group (taken and reset by the snapshot below) or the step before
+	if gstall < c14Lag/4 {
+		gstall = 0
+	}
+	if h.stepStall > gstall {
+		gstall = h.stepStall
 	}
 	if gstall > 0 {
 		h.c.Hist("step-with-stall-over-lag/4")
@@ -252,7 +258,7 @@ func (h *c14Hist) group(ms []*c14Match) {
 		parts = append(parts, fmt.Sprintf("%s/%v:%s after %.2fms", c14KindName[m.kind], m.d, out, float64(L)/1e6))
 		h.c.Hist(fmt.Sprintf("match-%s-d=%v-timeout=%v", c14KindName[m.kind], m.d, m.timedOut))
 		// the property's own observable, with the proved bounds
-		lo := int64(m.d) - (2*(c14Lag+h.stall) + 2*c14Tick)
+		lo := int64(m.d) - (2*(c14Lag+gstall) + 2*c14Tick)
 		hi := int64(m.d) + 2*regexp2.VerifClockPeriod() + 3*(c14Lag+gstall) + c14Margin
 		if m.other != "" {
 			h.direct = append(h.direct, fmt.Sprintf("match %d (%s, timeout %v): unexpected error %s", m.id, c14KindName[m.kind], m.d, m.other))
@@ -393,7 +399,12 @@ func legC14Clock(c *Ctx) {
 	nh := c.N(18, 90)
 	for hi := 0; hi < nh; hi++ {
 		h := mk()
-		regexp2.VerifClockReset()
+		if !c14StopWithin(3*time.Second) || !regexp2.VerifClockReset() {
+			c.Add(&Case{Desc: fmt.Sprintf("before history %d: StopTimeoutClock", hi),
+				Direct: "StopTimeoutClock did not return within 3 s: the clock goroutine does not exit (running stays true)"})
+			c.Flush()
+			return
+		}
 		h.origin = time.Now()
 		h.snap("init")
 		r := c.Rng
@@ -406,6 +417,7 @@ func legC14Clock(c *Ctx) {
 		} else {
 			script = append(script, "stop-idle-single")
 		}
+		script = append(script, "stale-round", "stale-round", "stale-round")
 		for k := 3 + r.Intn(3); k > 0; k-- {
 			script = append(script, Pick(r, []string{"match", "match", "idle", "group", "stop", "cat80"}))
 		}
@@ -430,6 +442,18 @@ func legC14Clock(c *Ctx) {
 				h.idle(time.Duration(250+r.Intn(150)) * time.Millisecond)
 				h.sawStaleStart++
 				h.group(h.randGroup())
+			case "stale-round":
+				// stopped clock, idle longer than every timeout, then four identical medium matches
+				// with different deadlines enter makeDeadline at the same instant
+				h.stop()
+				h.idle(time.Duration(95+r.Intn(40)) * time.Millisecond)
+				h.sawStaleStart++
+				ds := []time.Duration{80 * time.Millisecond, 80 * time.Millisecond, 80 * time.Millisecond, 20 * time.Millisecond}
+				var ms []*c14Match
+				for _, d := range ds {
+					ms = append(ms, &c14Match{d: d, kind: c14Medium})
+				}
+				h.group(ms)
 			case "stop-idle-single":
 				h.stop()
 				h.idle(time.Duration(250+r.Intn(150)) * time.Millisecond)
@@ -469,7 +493,10 @@ func legC14Clock(c *Ctx) {
 	c.Gate("matches started on a stale clock", tot.sawStaleStart > 0)
 
 	// int64 wrap-around of d + clockPeriod (known finding c14-overflow): deadline arithmetic on a stopped clock
-	regexp2.StopTimeoutClock()
+	if !c14StopWithin(3 * time.Second) {
+		c.Add(&Case{Desc: "after the histories: StopTimeoutClock", Direct: "StopTimeoutClock did not return within 3 s"})
+		return
+	}
 	cur, _, _, _, _ := regexp2.VerifClockSnapshot()
 	big := time.Duration(math.MaxInt64 - 1)
 	dl := regexp2.VerifClockMakeDeadline(big)
@@ -485,5 +512,5 @@ func legC14Clock(c *Ctx) {
 		cs.Direct = "false timeout: d + clockPeriod overflows int64 in makeDeadline, the deadline lies in the past"
 	}
 	c.Add(cs)
-	regexp2.StopTimeoutClock()
+	c14StopWithin(3 * time.Second)
 }
